@@ -493,6 +493,20 @@ func kindMusig(f *failer) {
 	} else {
 		R.Add("musig_final_sig_invalid_by_design_Rprime_infinite", 1)
 	}
+	// combining reads the partial signatures, it does not consume them: each
+	// one still carries BIP327's value and a second aggregation over the same
+	// slice gives the same signature (a signer may combine first and send its
+	// own partial signature afterwards)
+	for i, ps := range psigs {
+		sb := ps.S.Bytes()
+		if !bytes.Equal(sb[:], refPs[i]) {
+			f.bad("musig2.CombineSigs/changes-partial-signature", "after CombineSigs partial signature %d reads %x, it was %x", i, sb, refPs[i])
+			break
+		}
+	}
+	if again := musig2.CombineSigs(psigs[0].R, psigs, copts...).Serialize(); !bytes.Equal(again, fb) {
+		f.bad("musig2.CombineSigs/not-repeatable", "a second CombineSigs over the same partial signatures gives %x, the first gave %x", again, fb)
+	}
 	if got := final.Verify(msg, agg.FinalKey); got != wantFinalOK {
 		f.bad("musig2.CombineSigs/verifies-under-impl", "final signature %x: btcd verify=%v, BIP340 (reference)=%v", fb, got, wantFinalOK)
 	}
